@@ -67,6 +67,16 @@ def run(chk) -> None:
             gs = [t for t, lab in cfg.guards(n) if t.kind == "test" and any(t.ast is x for x in bn)]
             chk.ob("C09.R1", "the event is appended only on the not-stale side of the comparison", bool(gs) and compares_snapshot([x for g in gs for x in ast.walk(g.ast.test)]), m=mc, node=c, fn=sr,
                    instance="stale-check:add-guards-append", reason="append not controlled by the snapshot comparison")
+    # ---- the snapshot the comparison uses is the invocation's *current* one: the re-run arm re-binds <execution>.shared_state, so a
+    # local captured from it earlier (before the result loop, or before the re-binding in the same iteration) is stale afterwards
+    from ..astx import stale_alias_reads
+    stale = stale_alias_reads(cfg, "shared_state")
+    rebinds_ss = [s_ for s_ in ast.walk(sr) if isinstance(s_, ast.Assign) and any(isinstance(t, ast.Attribute) and t.attr == "shared_state" for t in s_.targets)]
+    chk.floor("C09.R1", "re-bindings of <execution>.shared_state in the reducer (the re-run refreshes the snapshot)", len(rebinds_ss), 1)
+    chk.ob("C09.R1", "every read of the invocation's snapshot sees the snapshot as refreshed by an earlier re-run in the same tick", not stale, m=mc, node=stale[0][2] if stale else add, fn=sr,
+           instance="stale-check:snapshot-current",
+           reason=(f"`{ast.unparse(stale[0][0])[:70]}` is bound before `{ast.unparse(stale[0][1])[:60]}` and read again afterwards: a second stale buffer in the same tick is compared with the "
+                   f"old snapshot and re-runs the same invocation once more (two invocations on one worker slot)") if stale else "")
     # ---- delete (consumption) branch
     dele = branch_for(sr, rv, "DeleteCollectedEvent")
     bd = _body_nodes(dele)
